@@ -280,7 +280,7 @@ class History:
             a = [start, 10000, r.choice([0, 3]), 0, r.choice([0, 5])]
         elif ch == 1:
             times = r.choice([1, 2, 3, 4, 7])
-            per = r.choice([1000, 1400, 2500, 1])
+            per = r.choice([p for p in (1000, 1400, 2500, 1) if times * p <= 10000])
             a = [start, 10000 - times * per, times, per, r.choice([1, 5, 30])]
         elif ch == 2:
             a = [start, r.choice([0, 2000]), 3, 3333, 10]
